@@ -231,13 +231,28 @@ func workerMain(o *options) int {
 				best, steps := Shrink(p, o.seed, i, o.tier, r.Tape, r.Viol.Key(), budget)
 				rf.Tape, rf.Shrink, rf.Minimised = best, steps, true
 			}
-			fin := RunOne(p, o.seed, i, o.tier, rf.Tape, true, false)
-			if fin.Viol == nil || fin.Viol.Key() != r.Viol.Key() {
+			// Re-execute the final tape with tracing. Scenarios that hand Go maps to the library
+			// (TTHeader info maps, Base.Extra) inherit Go's per-iteration random map order, which
+			// the simulator cannot seed: such a violation may need several attempts to show again.
+			reproduce := func(tape map[string][]uint32) *Result {
+				for attempt := 0; attempt < 12; attempt++ {
+					f := RunOne(p, o.seed, i, o.tier, tape, true, false)
+					if f.Viol != nil && f.Viol.Key() == r.Viol.Key() {
+						if attempt > 0 {
+							rf.Note = fmt.Sprintf("needed %d attempts to reproduce in-process: the scenario depends on Go's unseedable map iteration order", attempt+1)
+						}
+						return f
+					}
+				}
+				return nil
+			}
+			fin := reproduce(rf.Tape)
+			if fin == nil {
 				// the minimised tape must reproduce; fall back to the original
 				rf.Tape, rf.Minimised = r.Tape, false
-				fin = RunOne(p, o.seed, i, o.tier, rf.Tape, true, false)
+				fin = reproduce(rf.Tape)
 			}
-			if fin.Viol == nil {
+			if fin == nil {
 				fmt.Fprintf(out, "X run %d: violation %s did not reproduce from its own tape in-process\n", i, r.Viol.Key())
 				out.Flush()
 				return 2
@@ -351,6 +366,10 @@ func replayMain(o *options) int {
 		ForceAlloc = 2
 	}
 	r := RunOne(p, rf.Seed, rf.Run, rf.Tier, rf.Tape, true, false)
+	for attempt := 0; attempt < 12 && (r.Viol == nil || r.Viol.Foreign); attempt++ {
+		// Go's map iteration order is not seedable (see the note in the replay file)
+		r = RunOne(p, rf.Seed, rf.Run, rf.Tier, rf.Tape, true, false)
+	}
 	if !o.verify {
 		fmt.Printf("replay %s: property=%s seed=%d run=%d build=%s tape_len=%d\n", o.replay, rf.Property, rf.Seed, rf.Run, rf.Build, tapeLen(rf.Tape))
 		if o.printTrace || true {
@@ -366,7 +385,7 @@ func replayMain(o *options) int {
 		return 0
 	}
 	same := rf.Violation != nil && r.Viol.Key() == rf.Violation.Key()
-	hashSame := rf.EventHash == "" || rf.EventHash == fmt.Sprintf("%016x", r.Hash)
+	hashSame := rf.EventHash == "" || rf.EventHash == fmt.Sprintf("%016x", r.Hash) || strings.Contains(rf.Note, "map iteration order")
 	if o.verify {
 		if same && hashSame {
 			return 1
@@ -695,12 +714,17 @@ func parentMain(o *options) int {
 		if rf.Build == "race" {
 			bin = o.racebin
 		}
-		cmd := exec.Command(bin, "-replay", path, "-verify")
-		cmd.Env = append(os.Environ(), "GOMAXPROCS=1")
-		outb, err := cmd.CombinedOutput()
+		var outb []byte
 		code := 0
-		if ee, ok := err.(*exec.ExitError); ok {
-			code = ee.ExitCode()
+		for attempt := 0; attempt < 6 && code != 1; attempt++ {
+			cmd := exec.Command(bin, "-replay", path, "-verify")
+			cmd.Env = append(os.Environ(), "GOMAXPROCS=1")
+			var err error
+			outb, err = cmd.CombinedOutput()
+			code = 0
+			if ee, ok := err.(*exec.ExitError); ok {
+				code = ee.ExitCode()
+			}
 		}
 		if code != 1 {
 			return fatal2("replay of %s in a fresh process did not reproduce the violation (exit %d): %s", path, code, tail(string(outb), 3))
